@@ -5,6 +5,7 @@ import (
 	"os"
 	"strings"
 	"testing"
+	"time"
 )
 
 func TestDevCount(t *testing.T) {
@@ -23,6 +24,32 @@ func TestDevCount(t *testing.T) {
 	}
 }
 
+func TestDevHCount(t *testing.T) {
+	if os.Getenv("C04_DEV") != "hcount" {
+		t.Skip()
+	}
+	w, err := buildWorld(false, 0)
+	if err != nil {
+		t.Fatal(err)
+	}
+	rg, err := w.newRig()
+	if err != nil {
+		t.Fatal(err)
+	}
+	defer rg.close()
+	s0, err := rg.initState()
+	if err != nil {
+		t.Fatal(err)
+	}
+	t0 := time.Now()
+	for _, hs := range hspaces(os.Getenv("C04_T") != "", s0) {
+		fmt.Println(hs.Name, len(hs.Progs), hs.Info, time.Since(t0))
+		for i := 0; i < len(hs.Progs); i += len(hs.Progs)/10 + 1 {
+			fmt.Println("   ", hs.Progs[i])
+		}
+	}
+}
+
 func TestDevProbe(t *testing.T) {
 	if os.Getenv("C04_DEV") != "probe" {
 		t.Skip()
@@ -37,7 +64,7 @@ func TestDevProbe(t *testing.T) {
 		"A[T{Bd[T{Cf[E!]}{E}!]}{E}]", "A[T{Af[E!]}{}]", "A[T{!}{Bf[E]}E]", "A[K]", "A[KT{Bf[U!]}{}]", "A[U]", "A[T{Bf[Y!]}{}]", "A[Y]", "A[Y]", "A[T{Bd[N!]}{}]",
 	}
 	if p := os.Getenv("C04_PROG"); p != "" {
-		progs = []string{p}
+		progs = strings.Fields(p)
 	}
 	rg, err := w.newRig()
 	if err != nil {
